@@ -22,6 +22,7 @@ Tok == [
   a4  |-> [s |-> "<a4@cc.test>", n |-> "", a |-> "a4@cc.test", ok |-> TRUE],
   a5  |-> [s |-> "Plain Name <a5@bcc.test>", n |-> "Plain Name", a |-> "a5@bcc.test", ok |-> TRUE],
   a6  |-> [s |-> "user%relay.example@to.test", n |-> "", a |-> "user%relay.example@to.test", ok |-> TRUE],   \* '%' is atext
+  a7  |-> [s |-> "\"user@internal\"@gw.test", n |-> "", a |-> "user@internal@gw.test", ok |-> TRUE],   \* a local part that needs quoting: it holds an '@'
   bad |-> [s |-> "not an address", n |-> "", a |-> "", ok |-> FALSE],
   bad2 |-> [s |-> "trailing@", n |-> "", a |-> "", ok |-> FALSE] ]
 TokIds == DOMAIN Tok
@@ -89,7 +90,7 @@ MenuSmall ==
   \cup {C("from", "From", <<t>>, "") : t \in {"a4", "bad"}}
   \cup {C("envfrom", "Env", <<"a5">>, ""), C("replyto", "Reply", <<"a2">>, "")}
   \cup {C("addformat", "Bcc", <<"a1">>, NameCls.quoted)}
-  \cup {C("reset", "To", <<>>, ""), C("add", "Cc", <<"a6">>, "")}
+  \cup {C("reset", "To", <<>>, ""), C("add", "Cc", <<"a6">>, ""), C("add", "To", <<"a7">>, "")}
   \cup {C("envign", "Env", <<"bad">>, ""), C("envign", "Env", <<"bad", "a5">>, "")}
 
 MenuFull ==
@@ -106,7 +107,7 @@ MenuFull ==
   \cup {C("replyto", "Reply", <<t>>, "") : t \in {"a2", "a3"}}
   \cup {C("addformat", k, <<"a1">>, NameCls[nm]) : k \in Kinds, nm \in DOMAIN NameCls}
   \cup {C("fromformat", "From", <<"a4">>, NameCls[nm]) : nm \in DOMAIN NameCls}
-  \cup {C("reset", "To", <<>>, "")} \cup {C("set", k, <<"a6">>, "") : k \in Kinds}
+  \cup {C("reset", "To", <<>>, "")} \cup {C("set", k, <<t>>, "") : k \in Kinds, t \in {"a6", "a7"}} \cup {C("envfrom", "Env", <<"a7">>, "")}
   \cup {C("envign", "Env", <<"bad">>, ""), C("envign", "Env", <<"bad2", "a5">>, ""), C("envign", "Env", <<>>, "")}
 
 Menu == IF MENU = "full" THEN MenuFull ELSE MenuSmall
